@@ -17,6 +17,7 @@ import (
 	"encoding/json"
 	"fmt"
 	"math/rand"
+	"net"
 	"net/http"
 	"net/http/httptest"
 	"net/netip"
@@ -898,7 +899,7 @@ func c02UpsAnswer(c *c02Case, req *dns.Msg) *dns.Msg {
 		case dns.TypeHTTPS:
 			return &dns.HTTPS{SVCB: dns.SVCB{Hdr: hdr(owner, dns.TypeHTTPS), Priority: 1, Target: ".",
 				Value: []dns.SVCBKeyValue{&dns.SVCBAlpn{Alpn: []string{"h2"}},
-					&dns.SVCBIPv4Hint{Hint: []net_IP{netip.MustParseAddr(c.K.Marker).AsSlice()}}}}}
+					&dns.SVCBIPv4Hint{Hint: []net.IP{netip.MustParseAddr(c.K.Marker).AsSlice()}}}}}
 		default:
 			return &dns.TXT{Hdr: hdr(owner, dns.TypeTXT), Txt: []string{c.K.Marker}}
 		}
